@@ -45,7 +45,36 @@ func c20Script(k, chunking int, fail string) []vm.ReadStep {
 
 const c20Enum = 3 * 3 * 33 * 4 // ops x failure kinds x k in [0,32] x chunkings
 
+// injectEntropyFaults makes the entropy source of some drawing operations of an
+// existing history fail after k < 32 bytes.
+func injectEntropyFaults(r *rand.Rand, p *vm.Plan) {
+	n := 0
+	for i := range p.Ops {
+		op := &p.Ops[i]
+		if op.Ent == nil || r.Intn(4) != 0 {
+			continue
+		}
+		stream := make([]byte, 40)
+		r.Read(stream)
+		op.Ent = &vm.Entropy{Bytes: hex.EncodeToString(stream), Script: c20Script(r.Intn(32), r.Intn(4), c20Fails[r.Intn(3)])}
+		n++
+	}
+	p.Note = "history with entropy faults"
+}
+
 func genC20(r *rand.Rand, run int, tier string) *vm.Plan {
+	if run >= c20Enum && r.Intn(2) == 0 {
+		// exploration tier: entropy faults sprinkled into multi-party / family histories; invariant:
+		// a failed draw emits no token, alters no existing object, and later operations still work
+		var p *vm.Plan
+		if r.Intn(2) == 0 {
+			p = genC08(r, run, tier)
+		} else {
+			p = genC17(r, run, tier)
+		}
+		injectEntropyFaults(r, p)
+		return p
+	}
 	g := gen.New(r)
 	b := newPB(r)
 	var opk, fail string
